@@ -383,8 +383,8 @@ impl Graph {
 
     pub fn get_block_references_in(&self, key: &Key) -> Vec<NodeId> {
         self.maybe_key(key)
-            .expect("to have key")
-            .get_all_sub_nodes()
+            .map(|pointer| pointer.get_all_sub_nodes())
+            .unwrap_or_default()
             .into_iter()
             .filter(|id| !self.graph_node(*id).is_empty())
             .filter(|id| self.graph_node(*id).is_ref())
